@@ -32,12 +32,17 @@ func tkey(k int) []byte {
 }
 
 func (e *tableEngine) reset() {
-	if e.nt != nil {
-		e.nt.Close()
-	}
 	e.hash = "id"
 	e.objs = map[int]*tblObj{}
 	e.ids = map[unsafe.Pointer]int{}
+	e.fresh()
+}
+
+// fresh creates an empty table (a new case, or a `hash` line: the pointer declarations stay)
+func (e *tableEngine) fresh() {
+	if e.nt != nil {
+		e.nt.Close()
+	}
 	e.nt = nodetable.New(func(b []byte) uint32 {
 		k := binary.BigEndian.Uint64(b)
 		switch e.hash {
@@ -79,6 +84,7 @@ func (e *tableEngine) step(toks []string) string {
 		switch toks[1] {
 		case "const", "mod2", "mod3", "mod7", "id":
 			e.hash = toks[1]
+			e.fresh()
 			return "ok"
 		}
 	case toks[0] == "ptr" && len(toks) == 3:
